@@ -3,6 +3,7 @@ package main
 // Control flow: path enumeration, loop cut points, returns.
 
 import (
+	"go/token"
 	"strings"
 	"fmt"
 	"go/types"
@@ -180,6 +181,9 @@ func (fv *FV) execBlock(st *State, b *ssa.BasicBlock, pred *ssa.BasicBlock) {
 				}
 			}
 		}
+		if isHeader {
+			fv.bindIter(st, b, li)
+		}
 	}
 	if isHeader {
 		fc := fv.contractOf(fn)
@@ -204,7 +208,13 @@ func (fv *FV) execBlock(st *State, b *ssa.BasicBlock, pred *ssa.BasicBlock) {
 			if inv.Free {
 				continue
 			}
-			g := fv.evalGoal(st, inv.E, env, 0)
+			g, stale := fv.tryGoal(st, inv.E, env)
+			if stale != "" {
+				// the invariant names something the code no longer has: that is a failed obligation of
+				// this invariant (and of the properties it is tagged with), not of the whole function
+				fv.addObl(st, "invariant", fmt.Sprintf("loop#%d:%s:%s@%s", li.idx, inv.Name, kind, fn.Name()), "false", "the invariant no longer matches the code ("+stale+"): "+inv.Src, inv.Tags)
+				continue
+			}
 			fv.addObl(st, "invariant", fmt.Sprintf("loop#%d:%s:%s@%s", li.idx, inv.Name, kind, fn.Name()), g, inv.Src, inv.Tags)
 		}
 		if fromInside {
@@ -280,9 +290,10 @@ func (fv *FV) execBlock(st *State, b *ssa.BasicBlock, pred *ssa.BasicBlock) {
 			}
 			fv.assumeWF(st, nv)
 		}
+		fv.bindIter(st, b, li)
 		env = fv.envFor(st)
 		for _, inv := range lc.Invariants {
-			fv.assumeSpec(st, inv.E, env)
+			fv.tryAssume(st, inv.E, env)
 		}
 		if lc.Decreases != nil {
 			d := fv.evalSpec(lc.Decreases, env)
@@ -355,5 +366,94 @@ func (fv *FV) execFrom(st *State, b *ssa.BasicBlock, i int) {
 				return
 			}
 		}
+	}
+}
+
+
+// tryGoal evaluates a loop invariant in goal position; a contract error (an identifier the code
+// no longer has) is returned instead of aborting the function.
+func (fv *FV) tryGoal(st *State, e *Expr, env *Env) (g string, stale string) {
+	defer func() {
+		if r := recover(); r != nil {
+			if sf, ok := r.(specFail); ok {
+				stale = string(sf)
+				return
+			}
+			panic(r)
+		}
+	}()
+	return fv.evalGoal(st, e, env, 0), ""
+}
+
+// tryAssume assumes a loop invariant at the loop head unless it cannot be evaluated any more
+// (it then has a failed obligation of its own, see tryGoal).
+func (fv *FV) tryAssume(st *State, e *Expr, env *Env) {
+	defer func() {
+		if r := recover(); r != nil {
+			if _, ok := r.(specFail); ok {
+				return
+			}
+			panic(r)
+		}
+	}()
+	fv.assumeSpec(st, e, env)
+}
+
+
+// bindIter gives loop contracts a name for the number of completed iterations that does not
+// depend on how the loop is written: `iter` (and `iter$<loop ordinal>` from inner loops) is
+// rangeindex+1 for a range loop over a slice, and the counter itself for a loop whose header has
+// exactly one integer variable that starts at the constant 0 and is incremented by 1 on every
+// way back to the header.
+func (fv *FV) bindIter(st *State, b *ssa.BasicBlock, li *loopInfo) {
+	var found []Val
+	for _, in := range b.Instrs {
+		phi, ok := in.(*ssa.Phi)
+		if !ok {
+			break
+		}
+		bt, ok := phi.Type().Underlying().(*types.Basic)
+		if !ok || bt.Info()&types.IsInteger == 0 {
+			continue
+		}
+		v, ok := st.fr.vals[phi]
+		if !ok {
+			continue
+		}
+		if phi.Comment == "rangeindex" {
+			found = []Val{{T: fmt.Sprintf("(+ %s 1)", v.T), S: v.S, Typ: phi.Type()}}
+			break
+		}
+		isCounter := len(phi.Edges) >= 2
+		for i, e := range phi.Edges {
+			if li.blocks[b.Preds[i]] {
+				// back edge: phi + 1
+				bo, ok := e.(*ssa.BinOp)
+				if !ok || bo.Op != token.ADD || bo.X != ssa.Value(phi) {
+					isCounter = false
+					break
+				}
+				c, ok := bo.Y.(*ssa.Const)
+				if !ok || c.Value == nil || c.Int64() != 1 {
+					isCounter = false
+					break
+				}
+			} else {
+				c, ok := e.(*ssa.Const)
+				if !ok || c.Value == nil || c.Int64() != 0 {
+					isCounter = false
+					break
+				}
+			}
+		}
+		if isCounter {
+			found = append(found, v)
+		}
+	}
+	if len(found) == 1 {
+		st.fr.names["iter"] = found[0]
+		st.fr.names[fmt.Sprintf("iter$%d", li.idx)] = found[0]
+	} else {
+		delete(st.fr.names, "iter")
 	}
 }
